@@ -431,6 +431,8 @@ class XsdAttributeGroup(
                     attributes[None] = attr = copy(attributes[None])
                     assert isinstance(attr, XsdAnyAttribute)
                     attr.intersection(any_attribute)
+                    # The processContents of the complete wildcard is that of the local one
+                    attr.process_contents = any_attribute.process_contents
                     attr.parent = self
                 else:
                     attributes[None] = any_attribute
